@@ -220,6 +220,18 @@ def run_ufuncs(ctx):
             _one(ctx, rng, idx, sname, sp, uf, vcls)
 
 
+def layout_element(sp, arr):
+    """Element of sp wrapping (not copying) a non-C-contiguous array with the values of arr."""
+    arr = np.asarray(arr)
+    if arr.ndim >= 2:
+        a = np.asfortranarray(arr.copy())
+    else:
+        big = np.zeros((2 * arr.shape[0],) if arr.ndim == 1 else (), dtype=arr.dtype)
+        a = big[::2] if arr.ndim == 1 else big
+        a[...] = arr
+    return sp.element(a)
+
+
 def _one(ctx, rng, idx, sname, sp, uf, vcls):
     if True:
         C = Checker(ctx, sname + (';special-values' if vcls == 'special' else ''), sp, uf)
@@ -229,10 +241,30 @@ def _one(ctx, rng, idx, sname, sp, uf, vcls):
         y = rnd(sp, rng, vcls)
         xa = np.asarray(x).copy()
         ya = np.asarray(y).copy()
+        # memory layout of the operands: C-contiguous, or Fortran-ordered (>= 2 axes) / a strided view of a larger buffer (1 axis)
+        layout = ('C', 'other', 'other-x-only')[idx % 3]
+        if layout != 'C' and xa.size:
+            x = layout_element(sp, xa)
+            if layout == 'other':
+                y = layout_element(sp, ya)
+            # "the underlying arrays" are the arrays in their own layout (NumPy's reductions follow the memory order)
+            xa = np.asarray(x).copy(order='K')
+            ya = np.asarray(y).copy(order='K')
         is_discr = isinstance(sp, odl.DiscretizedSpace)
         if idx % 173 == 0:
             ctx.sample({'ufunc': name, 'space': util.srepr(sp, 80), 'x': xa})
         if uf.nin == 1:
+            if uf.nout == 1 and xa.size:
+                def at1_o():
+                    z = x.copy() if layout == 'C' else layout_element(sp, np.ascontiguousarray(xa))
+                    uf.at(z, [0])
+                    return z
+
+                def at1_n():
+                    z = xa.copy()
+                    uf.at(z, [0])
+                    return z
+                chk('at1', at1_o, at1_n)
             chk('call1', lambda: uf(x), lambda: uf(xa))
             r = call(lambda: uf(xa))
             if r[0] == 'ok' and uf.nout == 1:
@@ -346,7 +378,7 @@ def _one(ctx, rng, idx, sname, sp, uf, vcls):
                 chk('reduceat', lambda: uf.reduceat(x, [0, 1]), lambda: uf.reduceat(xa, [0, 1]), documented_unsupported=is_discr)
 
                 def at_o():
-                    z = x.copy()
+                    z = x.copy() if layout == 'C' else layout_element(sp, np.ascontiguousarray(xa))
                     ret = uf.at(z, [0], ya.ravel()[:1] if sp.ndim == 1 else ya[:1])
                     return z
 
